@@ -11,8 +11,8 @@
    `*`; `wtok` / `showw`: the same with a free choice of spelling per token); C09_text_tokens / C09_text_roundtrip go from the CHARACTERS through the tokenizer model (Text/TokenModel.v) and the
    parser model back to the statements (proofs: Text/LexRun.v, Text/ShowProofs.v).
    NESTED block comments (last part of this file): Text/ShowNested.v enlarges the separator language (`nseparator`, `nseps_ok`):
-   the content of a block comment may contain well-bracketed block comments to any depth d with d + 1 < 2^31 (`comment_body d`,
-   `depth_ok d`: the scanner counts open comments in an i32); proofs in Text/ShowNestedProofs.v. *)
+   the content of a block comment may contain well-bracketed block comments to any depth d with d + 1 < 2^64 (`comment_body d`,
+   `depth_ok d`: the scanner counts open comments in a usize - no real input reaches the bound); proofs in Text/ShowNestedProofs.v. *)
 From Coq Require Import ZArith NArith List.
 From Trion Require Import Base.Utf8 Text.Types Text.ParseModel Text.Render Text.ParseProofs Text.Pipeline Text.ShowSpec Text.ShowProofs
   Text.ShowNested Text.ShowNestedProofs.
@@ -152,8 +152,8 @@ Proof. vm_compute. repeat split. Qed.
 (* NESTED block comments as separators (ShowNested.v).  A block comment is  slash-star content star-slash  where the content is a
    sequence of plain bytes (a byte that forms neither slash-star nor star-slash with the byte after it; the byte after the last
    one is the closer's star) and of complete block comments of the same form: `comment_body d content`, d = number of levels
-   inside.  Bound: `depth_ok d` = d + 1 < 2^31 -- the comment itself and its d inner levels make the scanner's i32 counter reach
-   d + 1 (`depth` in src/text/token/mod.rs; with overflow checks the increment to 2^31 would panic, without them it wraps).
+   inside.  Bound: `depth_ok d` = d + 1 < 2^64 -- the comment itself and its d inner levels make the scanner's usize counter reach
+   d + 1 (`depth` in src/text/token/mod.rs; it was an inferred i32 that overflowed at 2^31 nested openers until fix ac45016).
    For every statement sequence and every choice of such separators (white space, CRLF, line comments, nested block comments in
    any number and order, nothing fusing), tokenizing and parsing the shown text yields the identical statements. *)
 Theorem C09_text_roundtrip_nested : forall stmts seps, forallb writable_stmt stmts = true -> nseps_ok (render_stmts stmts) seps ->
